@@ -31,7 +31,9 @@ TOKENS = ["date", "description", "amount", "-amount", "+amount", "location", "a"
 DATEFMTS = [None, "%Y-%m-%d", "%d %b %y"]
 TEMPLATES = [None, "{a}", "{a} {b}", "{c}"]
 HEADERS = ["Date", "Transaction Date", "Posting Date", "Payment Date", "Description", "Merchant Name", "Payee", "Memo", "Amount", "Debit",
-           "Payment", "Location", "City", "Balance", ""]
+           "Payment", "Location", "City", "Balance", "",
+           # unmapped columns whose header texts differ only in punctuation / letter case
+           "Ref #", "Ref", "REF"]
 
 
 def bounds(tier):
@@ -49,6 +51,11 @@ def gen_cases(tier):
             # every date style for rows of < K cells, the default style for the widest rows
             for ds in (range(len(DATESTYLES)) if n < k else (0,)):
                 yield {"part": "inspect", "headers": list(seq), "datestyle": ds}
+    # wider files: the three mapped columns plus every ordered pair of further headers, in three arrangements
+    core = [HEADERS.index("Date"), HEADERS.index("Description"), HEADERS.index("Amount")]
+    for a, b in itertools.product(range(len(HEADERS)), repeat=2):
+        for arr in ([*core, a, b], [a, *core, b], [core[0], a, core[1], b, core[2]]):
+            yield {"part": "inspect", "headers": arr, "datestyle": 0}
 
 
 def render(tokens, datefmt, spelling):
@@ -107,6 +114,19 @@ def check_parser(case):
                        "location_column": spec.location_column, "date_format": spec.date_format, "negate_amount": bool(spec.negate_amount),
                        "abs_amount": bool(spec.abs_amount),
                        "captures": dict((spec.custom_captures or {}) if spec.description_column is None else (spec.extra_fields or {}))}
+                if got == exp and sp == 0:
+                    # the same string parsed again in the same process must map the same columns
+                    evals += 1
+                    try:
+                        spec2 = parse_format_string(s, tplv)
+                        got2 = {"date_column": spec2.date_column, "amount_column": spec2.amount_column, "description_column": spec2.description_column,
+                                "location_column": spec2.location_column, "date_format": spec2.date_format, "negate_amount": bool(spec2.negate_amount),
+                                "abs_amount": bool(spec2.abs_amount),
+                                "captures": dict((spec2.custom_captures or {}) if spec2.description_column is None else (spec2.extra_fields or {}))}
+                    except Exception as e:  # noqa
+                        got2 = f"{type(e).__name__}: {e}"
+                    if got2 != exp:
+                        viol.append({"kind": "wrong-column-mapping", "detail": {**sub, "expected": exp, "got_on_second_parse": got2}})
                 if got != exp:
                     viol.append({"kind": "wrong-column-mapping", "detail": {**sub, "expected": exp, "got": got}})
                 elif spec.description_column is None and spec.description_template != tplv:
@@ -174,13 +194,15 @@ def check_inspect(case):
             {"kind": "inspect-crashes", "detail": {"headers": hs, "exc": f"{type(e).__name__}: {e}"}}], "sample_repr": {"headers": hs}}
     out = buf.getvalue()
     m = re.search(r'^\s*format: "(.*)"\s*$', out, re.M)
-    if not m or "Successfully detected format" not in out:
-        return {"evals": 1, "nontrivial": 0, "outcomes": ["no-suggestion"], "violations": [], "sample_repr": {"headers": hs}}
-    fmt_s = m.group(1)
     rep = {}
     for key, lab in (("date", "Date column"), ("description", "Description column"), ("amount", "Amount column"), ("location", "Location column")):
         mm = re.search(r"- " + lab + r": (\d+)", out)
         rep[key] = int(mm.group(1)) if mm else None
+    # a suggestion = a format line together with the detected column numbers (the help text shown when detection fails
+    # also contains an example format line, but no column report)
+    if not m or rep["date"] is None or rep["amount"] is None:
+        return {"evals": 1, "nontrivial": 0, "outcomes": ["no-suggestion"], "violations": [], "sample_repr": {"headers": hs}}
+    fmt_s = m.group(1)
     viol = []
     try:
         spec = parse_format_string(fmt_s)
